@@ -115,7 +115,19 @@ def main():
             mine.append(f)
     # obligations of this property
     clauses = [c for c in b['registry'] if pid in c.tags]
-    fr = fn_results(res)
+    fr0 = fn_results(res)
+
+    class _FR(dict):
+        pass
+    fr = {}
+    def _norm(n):
+        parts = re.split(r'::(?![^<]*>)', n)
+        return '::'.join([parts[0], parts[1], parts[3]]) if len(parts) == 4 else n
+    for c in b['contracts']:
+        if _norm(c.name) in fr0:
+            fr[c.name] = fr0[_norm(c.name)]
+    for k_, v_ in fr0.items():
+        fr.setdefault(k_, v_)
     cone_fns = sorted({c.fn for c in clauses} | {c.name for c in b['contracts'] if pid in c.tags})
     assumed = [(c.name, c.assumed) for c in b['contracts'] if c.assumed and (pid in c.tags or any(pid in cl.tags for cl in c.requires + c.ensures))]
     unchecked = [f for f in cone_fns if f not in fr and f not in [x[0] for x in assumed]]
